@@ -116,47 +116,4 @@ mod verif_kani {
         std::mem::forget(r);
         std::mem::forget(e);
     }
-
-    /// C05 (timeout clause, wake-up side): for one process parked in a select with one timeout
-    /// source, `next_timeout_ms` is exactly the first clock value at which
-    /// `check_expired_timeouts` re-queues it, so an event-driven runtime that sleeps until that
-    /// instant neither wakes early nor loses the wake-up.
-    #[kani::proof]
-    #[kani::unwind(48)]
-    #[kani::stub(std::hash::RandomState::new, stub_random_state)]
-    fn c05_next_timeout_matches_expiry() {
-        let timeout: i64 = kani::any();
-        let start: u64 = kani::any();
-        let now: u64 = kani::any();
-        let mut e = fresh(0);
-        let mut p = Process::new(false);
-        p.select_state = Some(SelectState {
-            frame: 0,
-            instruction: 0,
-            sources: vec![Value::Integer(num_bigint::BigInt::from(timeout))],
-            cursors: vec![],
-            start_time: Some(start),
-            receiving: None,
-        });
-        e.processes.insert(7, p);
-        e.selecting.insert(7);
-        let next = e.next_timeout_ms();
-        e.check_expired_timeouts(now);
-        let woken = e.queue.contains(&7);
-        match next {
-            Some(t) => {
-                // wakes exactly from t on (t saturates at u64::MAX)
-                if now >= t {
-                    assert!(woken, "the process is re-queued once the advertised instant is reached");
-                } else {
-                    assert!(!woken, "the process is not re-queued before the advertised instant");
-                }
-            }
-            None => assert!(false, "a select with a timeout source always advertises an instant"),
-        }
-        assert!(woken == !e.selecting.contains(&7), "re-queued iff no longer parked");
-        kani::cover!(woken, "woken");
-        kani::cover!(!woken, "still parked");
-        std::mem::forget(e);
-    }
 }
